@@ -308,7 +308,7 @@ func VerifC01Boundaries() {
 			ns = append(ns, 65534, 65535, 65536, 65537)
 		}
 		n := ns[verifChoice("dict", len(ns))]
-		extra := verifU64("extra") // one symbolic row on top of the distinct ones
+		extra := uint64(8) // rows beyond the distinct ones repeat the first value
 		next := 0
 		vOfLeaf("LowCardinality(UInt64)", true, func() ColumnOf[uint64] { return new(ColUInt64).LowCardinality() },
 			func() uint64 {
